@@ -38,9 +38,9 @@ def r1(R, repo):
           produced.add('ArrayAttr')
         else:
           # the recursive result: NodeDef | NodeRef | VariableDef (return annotation / constructors of the function)
-          for y in astu.func_calls(fl):
-            if astu.call_name(y) in ('NodeDef', 'NodeRef', 'VariableDef'):
-              produced.add(astu.call_name(y))
+          # (constructed in _graph_flatten itself or in a helper it calls)
+          for _f, y in evid.calls_deep(repo, fl, lambda z: astu.call_name(z) in ('NodeDef', 'NodeRef', 'VariableDef')):
+            produced.add(astu.call_name(y))
   arr = mod.assigns.get('ARRAY_ATTR')
   R.require(arr is not None and astu.src(arr) == 'ArrayAttr()', 'ARRAY_ATTR is no longer ArrayAttr()')
   read = set(_type_is_branches(gc, 'value'))
